@@ -3,7 +3,9 @@ open Pcore.Lat
 #print axioms C04_ptype_scalar
 #print axioms C04_dtype_scalar
 #print axioms C04_dtype_struct
-#print axioms C04_ptype_of_common
+#print axioms C04_ptype
+#print axioms C04_common_fam
+#print axioms C04_ptype_of_family
 #print axioms C04_accepts_sound_partial
 #print axioms C04_common_unit
 #print axioms C04_common_accepts_left
